@@ -127,6 +127,236 @@ def harness(ctx, case):
     return out
 
 
+# ---------------------------------------------------------------------------------------------------------------------
+# family "tokens": the same question one layer up — the real tokenizer, `parse_operand_list` and the operator token
+# recognisers on program *text* whose operator spellings are symbolic bytes and whose operands are compound forms.
+FORMS = {
+    'sym': 'a%d', 'int': '%d', 'str': '"s%d"', 'bool': 'true', 'grouped-sym': '(a%d)', 'grouped-bin': '(a%d + 1)',
+    'grouped-bool': '(true)', 'list': '[a%d]', 'tuple': '{x = a%d}', 'call': 'f(a%d)', 'copy': 'a%d{x = 1}',
+    'select': 'select (a%d, 1) => {a = 1}', 'format': '"@" %% (a%d)', 'range': '1:a%d', 'import': 'import "f%d"',
+    'not-sym': 'not a%d', 'not-grouped': 'not (a%d)', 'not-grouped-bin': 'not (a%d && b)', 'not-bool': 'not true',
+    'not-grouped-bool': 'not (true)', 'not-list': 'not [a%d]', 'not-call': 'not f(a%d)',
+}
+
+
+def plain_of(form):
+    """the plain-symbol counterpart of an operand form (a leading `not` is part of the chain, not of the operand)"""
+    return 'not-sym' if form.startswith('not-') else 'sym'
+
+
+def chain_text(forms, ops):
+    """-> (text with 2-byte operator slots filled from `ops` (str or None placeholders), [start column of operand i])"""
+    text, cols = '', []
+    for i, f in enumerate(forms):
+        t = FORMS[f] % (i + 1) if '%d' in FORMS[f] else FORMS[f].replace('%%', '%')
+        lead = 4 if f.startswith('not-') else 0
+        cols.append(len(text) + 1 + lead)
+        text += t
+        if i < len(forms) - 1:
+            text += ' ' + ops[i] + ' '
+    return text + ';', cols
+
+
+def two(sp):
+    return sp if len(sp) == 2 else sp + ' '
+
+
+CLASSES = {'p1': [sp for sp in PT.SPELLING.values() if len(sp) == 1], 'p2': [sp for sp in PT.SPELLING.values() if len(sp) == 2 and not sp.isalpha()],
+           'w2': [sp for sp in PT.SPELLING.values() if sp.isalpha()]}
+PLACEHOLDER = {'p1': '+ ', 'p2': '==', 'w2': 'in'}
+_TOK = {}
+
+
+def real_tokens(ctx, text):
+    """tokens of a concrete text from the real tokenizer (memoised per worker process; the parser only reads them)"""
+    from mirsym.vals import NONE
+    if text not in _TOK:
+        r = ctx.call('tokenizer::tokenize', [ctx.call('OffsetStrIter::new', [text]), NONE])
+        if r.variant != 0:
+            raise RuntimeError('template does not tokenize: %r' % text)
+        _TOK[text] = r.fields[0]
+    return _TOK[text]
+
+
+def harness_tokens(ctx, case):
+    """operator chains as *token lists*: the operands are tokenized by the real tokenizer, every operator token carries symbolic
+    fragment bytes (constrained to the spellings of its class: 1-byte punctuation, 2-byte punctuation, word), and the real
+    `statement` parser runs on the list."""
+    from mirsym.vals import NONE, SymStr, Agg, VecV
+    prog = ctx.prog
+    b, kinds, levels = setup(prog)
+    forms = case['forms']
+    classes = case['classes']
+    n = len(forms) - 1
+    slots = []
+    for i in range(n):
+        w = 1 if classes[i] == 'p1' else 2
+        bs = [ctx.bv('o%d%s' % (i, 'ab'[j]), 8) for j in range(w)]
+        ctx.assume(z3.Or(*[z3.And(*[x == ord(c) for x, c in zip(bs, sp)]) for sp in CLASSES[classes[i]]]))
+        slots.append(tuple(bs))
+
+    def sym_tokens(fs):
+        text, cols = chain_text(fs, [PLACEHOLDER[c] for c in classes])
+        opcols = []
+        for i in range(n):
+            nxt = cols[i + 1] - (4 if fs[i + 1].startswith('not-') else 0)
+            opcols.append(nxt - 3)
+        toks = list(real_tokens(ctx, text).items)
+        tf = prog.sources.struct_fields('tokenizer::Token') or prog.sources.struct_fields('ast::Token')
+        for i, oc in enumerate(opcols):
+            hit = [j for j, t in enumerate(toks) if b.field(b.field(t, 'ast::Token', 'pos'), 'ast::Position', 'column') == oc]
+            if len(hit) != 1:
+                raise RuntimeError('operator token %d not found at column %d of %r' % (i, oc, text))
+            t = toks[hit[0]]
+            fields = list(t.fields)
+            fields[tf.index('fragment')] = SymStr(slots[i])
+            toks[hit[0]] = Agg(t.ty, t.variant, tuple(fields))
+        return VecV(toks), cols
+
+    out = {'reached': True, 'asserts': 0, 'violations': []}
+
+    def spelled(extra=None):
+        m = ctx.model(extra)
+        return [bytes(m.eval(x, model_completion=True).as_long() for x in s).decode().strip() for s in slots]
+
+    res_variants = b.variants('abortable_parser::Result')
+
+    def parse(fs):
+        toks, cols = sym_tokens(fs)
+        it = b.struct('abortable_parser::SliceIter', source=toks, offset=0)
+        r = ctx.call('parse::statement', [it])
+        if res_variants[r.variant] != 'Complete':
+            return None, cols
+        rest, stmt = r.fields
+        # the whole list up to the END token must be consumed
+        if b.field(rest, 'abortable_parser::SliceIter', 'offset') != len(toks.items) - 1:
+            return None, cols
+        if b.variant_name(stmt, 'ast::Statement') != 'Expression':
+            return None, cols
+        return stmt.fields[0], cols
+
+    def shape(e, cols, ops):
+        en = b.variant_name(e, 'ast::Expression')
+        if en == 'Binary':
+            d = e.fields[0]
+            kind = b.field(d, 'ast::BinaryOpDef', 'kind')
+            left = shape(b.field(d, 'ast::BinaryOpDef', 'left'), cols, ops)
+            ops.append(kinds[kind.variant])
+            right = shape(b.field(d, 'ast::BinaryOpDef', 'right'), cols, ops)
+            return (kinds[kind.variant], left, right)
+        if en == 'Not':
+            return ('not', shape(b.field(e.fields[0], 'ast::NotDef', 'expr'), cols, ops))
+        from mirsym.vals import deref_all
+        from mirsym.vals import CellV, Ref
+        pos = deref_all(ctx.call('Expression::pos', [Ref(CellV(e).slot, 0, ())]))
+        col = b.field(pos, 'ast::Position', 'column')
+        return cols.index(col) if col in cols else ('?', col)
+
+    plain = [plain_of(f) for f in forms]
+    tp, cp = parse(plain)
+    if tp is None:
+        out['sample'] = {'skipped': 'the chain over plain symbols does not parse', 'ops': spelled()}
+        out['not_a_chain'] = 1
+        return out
+    ops_p = []
+    sp = shape(tp, cp, ops_p)
+    sp_txt = spelled()
+    txt = lambda fs, ops: chain_text(fs, [two(o) for o in ops])[0]
+
+    def report(key, what, **kw):
+        v = {'key': key, 'what': what + ' for the chain %r' % chain_text(forms, [two(o) for o in sp_txt])[0],
+             'case': {'kind': 'parse-pair', 'text': txt(forms, sp_txt), 'plain': txt(plain, sp_txt)}, 'cols': chain_text(forms, ['  '] * n)[1],
+             'plain_cols': cp, 'family': 'tokens'}
+        v.update(kw)
+        out['violations'].append(v)
+
+    # (1) each operator in the tree is the one spelled in its slot
+    out['asserts'] += 1
+    if len(ops_p) != n:
+        report('C02:tokens:operator-count', 'the tree over plain symbols has %d operators, the text has %d' % (len(ops_p), n), expect_plain=None)
+        return out
+    conds = [z3.And(*[x == ord(c) for x, c in zip(s, PT.SPELLING[k])]) if len(s) == len(PT.SPELLING[k]) else z3.BoolVal(False) for s, k in zip(slots, ops_p)]
+    if not ctx.valid(z3.And(*conds)):
+        report('C02:tokens:operator-kind', 'an operator is recognised as a different kind than its spelling (tree has %s)' % ' '.join(ops_p))
+        return out
+    # (2) chains without `not`: the grouping over plain symbols is the table's
+    if not any(f.startswith('not-') for f in forms):
+        out['asserts'] += 1
+        exp = PT.climb(ops_p, levels)
+        if sp != exp:
+            report('C02:tokens:grouping-differs-from-table', 'grouping of the plain chain differs from the table: %s, expected %s' % (PT.sexpr(sp), PT.sexpr(exp)),
+                   expect_plain=PT.sexpr(exp, leaf=lambda i: '@%d' % cp[i]))
+            return out
+    # (3) the grouping does not depend on what the operands are
+    if plain != forms:
+        out['asserts'] += 1
+        tf, cf = parse(forms)
+        if tf is None:
+            out['sample'] = {'skipped': 'the chain with these operand forms does not parse', 'ops': sp_txt, 'forms': forms}
+            out['operand_rejected'] = 1
+            return out
+        ops_f = []
+        sf = shape(tf, cf, ops_f)
+        if sf != sp:
+            report('C02:tokens:grouping-depends-on-operands', 'the grouping changes with the operand forms %s: %r, over plain symbols %r' % (forms, sf, sp))
+            return out
+    out['sample'] = {'ops': sp_txt, 'forms': forms, 'shape': repr(sp)}
+    return out
+
+
+def token_cases(tier):
+    others = [f for f in FORMS if f not in ('sym', 'not-sym')]
+    nots = [f for f in FORMS if f.startswith('not-')]
+    cases = [{'forms': ['sym'] * (n + 1)} for n in (1, 2)]
+    # every operand form in every slot of a one-operator chain
+    for f in others:
+        cases += [{'forms': [f, 'sym']}, {'forms': ['sym', f]}]
+    # two operators: the grouped and `not` forms in every slot (quick); every form in every slot (thorough)
+    two_ops = others if tier == 'thorough' else ['grouped-sym', 'not-grouped', 'not-grouped-bool', 'not-list']
+    for f in two_ops:
+        for i in range(3):
+            fs = ['sym'] * 3
+            fs[i] = f
+            cases.append({'forms': fs})
+    if tier == 'thorough':
+        cases.append({'forms': ['sym'] * 4})
+        for f in ['grouped-sym', 'not-sym', 'not-grouped', 'not-grouped-bool']:
+            for i in range(4):
+                fs = ['sym'] * 4
+                fs[i] = f
+                cases.append({'forms': fs})
+        for f in nots:
+            for g in ('grouped-sym', 'list', 'not-grouped'):
+                cases += [{'forms': [f, g, 'sym']}, {'forms': ['sym', f, g]}, {'forms': [g, f, 'sym']}]
+    return cases
+
+
+def with_classes(cases):
+    import itertools
+    out = []
+    for c in cases:
+        for cl in itertools.product(('p1', 'p2', 'w2'), repeat=len(c['forms']) - 1):
+            out.append({'forms': c['forms'], 'classes': list(cl)})
+    return out
+
+
+def judge_tokens(v):
+    import re
+
+    def norm(shape, cols):
+        return re.sub(r'@(\d+)', lambda m: '#%d' % cols.index(int(m.group(1))) if int(m.group(1)) in cols else m.group(0), shape or '')
+
+    def j(out):
+        a, p = out['pair']
+        if not (a.get('ok') and p.get('ok')):
+            return False
+        sa, sp = norm(a['stmts'][0].get('shape'), v['cols']), norm(p['stmts'][0].get('shape'), v['plain_cols'])
+        if v['key'].endswith('grouping-depends-on-operands'):
+            return sa != sp
+        return True if 'expect_plain' not in v or v['expect_plain'] is None else p['stmts'][0].get('shape') != v['expect_plain']
+    return j
+
+
 def replay_case(kind_names):
     text = 'a1'
     for i, k in enumerate(kind_names):
@@ -151,13 +381,23 @@ def run(fw):
     fw.oracles.append('precedence table parsed from docsite/site/content/reference/expressions.md: %s' % levels)
     nmax = 3 if fw.tier == 'quick' else 4
     fw.bounds.update({'chain_length_max': nmax, 'operator_kinds': len(kinds), 'leaf_kinds': ['int', 'sym', 'grouped'],
-                      'outside': 'chains longer than the bound; operands that fail to parse; token-level spelling is family tokens'})
+                      'tokens_family': {'operators_per_chain': '1..2 (quick), 1..3 (thorough)', 'operand_forms': sorted(FORMS),
+                                        'non_plain_operands_per_chain': '1 (quick), 1..2 (thorough)'},
+                      'outside': 'chains longer than the bound; operand forms not listed; chains whose operand form the parser rejects (counted)'})
     cases = [{'n': n, 'leaf': 'int'} for n in range(1, nmax + 1)]
     cases += [{'n': n, 'leaf': lk} for lk in ('sym', 'grouped') for n in range(1, 3)]
     fw.explore('elements', harness, cases, fuel=2_000_000)
     mk = judge_factory(levels)
     for v in fw.violations:
         v['judge'] = mk(v)
+    nel = len(fw.violations)
+    recs = fw.explore('tokens', harness_tokens, with_classes(token_cases(fw.tier)), fuel=6_000_000)
+    fw.families['tokens']['chain_over_plain_symbols_rejected'] = sum(r.get('not_a_chain', 0) for r in recs)
+    fw.families['tokens']['operand_form_rejected_by_parser'] = sum(r.get('operand_rejected', 0) for r in recs)
+    if fw.families['tokens']['chain_over_plain_symbols_rejected']:
+        fw.inconclusive.append('tokens: %d operator chains over plain symbols were rejected by the parser' % fw.families['tokens']['chain_over_plain_symbols_rejected'])
+    for v in fw.violations[nel:]:
+        v['judge'] = judge_tokens(v)
     # witnesses validated natively: a few sampled chains must parse to the oracle tree in the real build
     import random
     rnd = random.Random(fw.seed)
